@@ -20,6 +20,8 @@ def insertBy (kind : FrameKind) (o : Interp.ChildResult) : Interp.M Unit :=
 def kindOfAction : Interp.Action → FrameKind
   | .call i => .call i.retStart i.retEnd
   | .create _ => .create 0
+  -- EOF frames are not part of this whole-transaction model (legacy transactions only)
+  | .eofCreate _ => .create 0
 
 /-- what the loop does next -/
 inductive Next (κ : Type)
@@ -61,7 +63,8 @@ def frameAction {κ : Type} (C : CpOps κ) (cfg : Cfg) (top : Frame κ) (rest : 
   let top := { top with interp := s }
   let (fr, w) ← (match a with
     | .call i => makeCallFrame C cfg w i s.mem
-    | .create i => makeCreateFrame C cfg w i s.mem)
+    | .create i => makeCreateFrame C cfg w i s.mem
+    | .eofCreate _ => throw (.panic "EOFCREATE: EOF frames are not part of this whole-transaction model"))
   match fr with
   | .frame f => pure (.run (f :: top :: rest) w)
   | .result o => deliver (kindOfAction a) o top rest s.mem w
